@@ -1,19 +1,13 @@
-(* GENERATED by translate/smallvec_ops.py from src/utility/small_vector.tcc -- do not edit.
-   insert_shape_gen: early exits, branch condition and range operations of insert(i, b, e);
-   method_bodies: the normalised statements of every member definition. *)
+(* C20 -- the text of the member definitions of src/utility/small_vector.tcc
+   (normalised statements, see translate/smallvec_ops.py) that the hand-written
+   methods of SmallVec/SmallVecDefs.v were modelled on.  Maintained by hand
+   together with the model: `python3 translate/smallvec_ops.py --modelled`
+   prints the current text after the model has been brought in line. *)
 From Coq Require Import List String.
-From VV Require Import SmallVec.SmallVecAst.
 Import ListNotations.
 Local Open Scope string_scope.
 
-Definition insert_shape_gen : insert_shape :=
-  mkInsertShape
-    [IGAppendAtEnd; IGReturnIfEmpty]
-    ICondTailAtLeastN
-    [RAppendMoved (PMinus PEnd Nn) PEnd; RMove Bwd WAssign PI (PMinus POldEnd Nn) POldEnd; RCopyIn WAssign PI]
-    [RSizeAdd; RMove Fwd WByStorage PI POldEnd (PMinus PEnd Noverwritten); ROverwrite; RCopyIn WByStorage POldEnd].
-
-Definition method_bodies : list (string * list string) :=
+Definition modelled_bodies : list (string * list string) :=
   [
    ("small_vector(size_type n)",
     ["if (n <= S)";
